@@ -94,6 +94,12 @@ func gen(g *hx.Gen) {
 	for _, s := range wire.GenBoundary(r.Fork(77), false) {
 		emit(g, s.Op, s.Bytes)
 	}
+	// merkleblock: a raw uint32 hash count next to a small transaction count
+	for _, nh := range []uint32{0, 1, 10000, 10001, 1 << 22} {
+		h := wire.Ser(wire.GenHeader(r))
+		b := append(append([]byte(nil), h...), 1, 0, 0, 0, byte(nh), byte(nh>>8), byte(nh>>16), byte(nh>>24))
+		emit(g, "dec merkleblock 0", append(b, r.Bytes(r.Intn(40))...))
+	}
 	genMsg(g)
 	genDmsg(g)
 	// every prefix of a few valid encodings (each list position is hit by a truncation)
